@@ -16,9 +16,9 @@ _MAN = {}
 
 
 def manager(cell):
-    key = (cell["model"], cell["tn"], cell["M"], cell.get("particles", 0))
+    key = (cell["model"], cell["tn"], cell["M"], cell.get("particles", 0), cell.get("u", 1.0))
     if key not in _MAN:
-        m = models.pipeline_model(cell["model"])
+        m = models.pipeline_model(cell["model"], u=cell.get("u", 1.0))
         man, Tn = pipeline.build_manager(m, cell["tn"], M=cell["M"], N=5, nparticles=cell.get("particles", 0))
         _MAN.clear()
         _MAN[key] = (m, man, Tn)
@@ -120,6 +120,10 @@ def profile_event(cell):
                 kind = "none"
             elif abs(lhs) < 1e-3 * scale_l and rel_slope > 1e-2:
                 kind = "root"
+            elif rel_slope > 1e-2 and abs(lhs) / scale_l < 1.0 * rel_slope:
+                # the residual is not small, but it is not at a stationary point either: following its slope reaches zero within
+                # a factor e of this temperature -- a root exists nearby and the returned temperature is simply off it
+                kind = "offRoot"
             else:
                 kind = "minimumOnly"
             side = "flat" if rel_slope <= 1e-2 else ("above" if slope > 0 else "below")
@@ -142,6 +146,8 @@ def profile_event(cell):
         ev["out"] = type(ex).__name__
         ev["msg"] = str(ex)[:200]
     cid = "prof_{model}_tn{tn}_M{M}_p{pp}_{branch}_vf{vfrac}_r{ratio}_o{offset}_mom{mo}".format(mo=int(bool(cell.get("moments"))), pp=cell.get("particles", 0), **cell)
+    if cell.get("u", 1.0) != 1.0:
+        cid += "_u{}".format(cell["u"])
     # description of the observation, used ONLY to match entries of known_findings.json
     bad = [p for p in ev.get("pts", []) if p["d33"] < 3 or p["d30"] < 8]
     if ev.get("out") != "ok":
